@@ -53,3 +53,14 @@ func vHarness_C08_sanitizers() {
 	}
 	vReach("ran")
 }
+
+// longer texts inside the four special elements (reaches "</title", "</script>" ...)
+func vHarness_C08_special() {
+	names := []string{"script", "style", "title", "textarea"}
+	c := context{state: stateSpecialElementBody, element: element{name: names[vParam("elem")]}}
+	s := vNondetString("s", vParam("n"))
+	vASCII(s)
+	c1, _ := c01Escape(c, s)
+	vReach("ran")
+	vAssert(c1.state <= stateError && c1.delim <= delimSpaceOrTagEnd, "escapeText yields a context outside the state/delimiter range")
+}
